@@ -905,13 +905,22 @@ def transfer_mirror(rtext, mirror, log, where, variant="main", is_fn=True):
             lps = fa10.loops()
         except Lost:
             lps = []
+        # a loop whose annotations use the desugared vocabulary (`<name>_all` / `<name>_k`) is desugared too,
+        # so one invariant style serves loops with and without `continue`
+        names10 = {}
+        for pos, text, glue in ann:
+            anchor = a2b.get(pos - 1) if pos - 1 >= 0 else None
+            if glue == "tight" and text != ":" and anchor is not None:
+                names10[anchor] = text
+        alltext = "\n".join(text for _, text, glue in ann if glue == "block")
         for L in lps:
             if L["kind"] != "for" or L["in_idx"] is None:
                 continue
             inner = [(M2["body_open"], M2["body_close"]) for M2 in lps if M2 is not L and L["body_open"] < M2["kw"] < L["body_close"]]
             own = any(R[k].text == "continue" and R[k].kind == "id" and not any(a <= k <= b for a, b in inner)
                       for k in range(L["body_open"], L["body_close"]))
-            if own:
+            nm10 = names10.get(L["in_idx"])
+            if own or (nm10 and re.search(r"\b%s_(all|k)\b" % re.escape(nm10), alltext)):
                 r10[L["in_idx"]] = dict(L, name=None)
     if r10:
         inv_ab = {v: k for k, v in a2b.items()}
